@@ -376,7 +376,7 @@ func newWatchdog() *watchdog {
 			time.Sleep(500 * time.Millisecond)
 			w.mu.Lock()
 			for id, t := range w.since {
-				if time.Since(t) > 8*time.Second {
+				if time.Since(t) > 20*time.Second {
 					select {
 					case w.hung <- w.current[id]:
 					default:
@@ -408,8 +408,17 @@ type outcome struct {
 }
 
 // callParser runs one entry point; returns an error describing a contract violation, if any.
+// callWD, if set, times every single parser call (slot ids from a counter: calls run on many goroutines)
+var callWD *watchdog
+var callWDSeq int64
+
 func callParser(entry string, input string) (outcome, error) {
 	var o outcome
+	if w := callWD; w != nil {
+		id := int(atomic.AddInt64(&callWDSeq, 1)%100000) + 10000
+		w.enter(id, input)
+		defer w.leave(id)
+	}
 	err := guard(func() error {
 		var c any
 		var err error
@@ -492,6 +501,7 @@ func cmdTotal(args []string) int {
 	start := time.Now()
 	st := newDocStats()
 	wd := newWatchdog()
+	callWD = wd
 	report := func(check, input string, err error) {
 		msg := err.Error()
 		sig := msg
@@ -512,7 +522,7 @@ func cmdTotal(args []string) int {
 	go func() {
 		select {
 		case h := <-wd.hung:
-			report("termination", h, fmt.Errorf("parser did not return within 8 s on input %q", h))
+			report("termination", h, fmt.Errorf("a single parser call did not return within 20 s on input %q", h))
 			finishDocs(*prop, st, *out, *replayDir, map[string]any{"hang": true})
 			fmt.Printf("MISMATCH property=%s :: parser hangs on %q\n", *prop, h)
 			os.Exit(1)
@@ -636,9 +646,7 @@ func cmdTotal(args []string) int {
 			p := jsonx.NewPicker(*seed*7919+int64(i)*31+int64(k), int(*seed)+i+k*13)
 			ct := jsonx.Concretise(docs[i].Tree, p)
 			st.seen(ct.String())
-			wd.enter(100+i%64, ct.String())
 			err := cutDoc(ct, (i+k)%3)
-			wd.leave(100 + i%64)
 			if err != nil {
 				reportT("cut", ct, (i+k)%3, err)
 				return
@@ -791,7 +799,22 @@ func cutDocCheck(ct *jsonx.CTree, how int, cc *cutCounters) error {
 	if o, err := callParser(entry, text); err != nil || !o.ok {
 		return fmt.Errorf("complete serialised document %q is not accepted (%v %v)", text, err, o.errMsg)
 	}
+	// long texts: every position up to 300 and in the last 100 bytes, around the block sizes, and every 37th in between
+	dense := func(pos int) bool {
+		if len(text) <= 600 || pos < 300 || pos > len(text)-100 || pos%37 == 0 {
+			return true
+		}
+		for _, b := range []int{64, 128, 256, 512, 1024, 2048, 4096} {
+			if pos >= b-3 && pos <= b+3 {
+				return true
+			}
+		}
+		return false
+	}
 	for cut := 0; cut < len(text); cut++ {
+		if !dense(cut) {
+			continue
+		}
 		o, err := callParser(entry, text[:cut])
 		atomic.AddInt64(&cc.cuts, 1)
 		if err != nil {
@@ -802,6 +825,9 @@ func cutDocCheck(ct *jsonx.CTree, how int, cc *cutCounters) error {
 		}
 	}
 	for pos := 1; pos < len(text); pos++ {
+		if !dense(pos) {
+			continue
+		}
 		for _, bad := range illFormed {
 			mut := text[:pos] + string(bad) + text[pos:]
 			if utf8.ValidString(mut) {
